@@ -4,12 +4,16 @@ META = dict(
     level="model_checking",
     engine="Balance",
     technique="TLA+ chain machine (spec/Balance.tla) model-checked by TLC for oracle satisfiability; TLC-generated "
-              "rebalance chains replayed on the real strategies; TLC evaluates ValidPlan on every real plan (spec/BalanceTrace.tla)",
+              "rebalance chains replayed on the real strategies; TLC evaluates ValidPlan on every real plan (spec/BalanceTrace.tla); "
+              "plans as handed out by the real group leader through SyncGroup validated by spec/GroupTrace.tla (sync_plan_complete)",
     text="TLC enumerates every group shape with <=3 members, 2 topics, <=3 partitions and every 2-step rebalance chain "
          "(join/leave/subscription change/partition-count change/topic deletion, leavers rejoining with stale user data) and "
          "simulates longer chains over 4 members x 3 topics x <=5 partitions; each chain is executed on the real range, "
          "round-robin and sticky Plan with the real AssignmentData user data fed back; TLC then evaluates the validity "
-         "clauses on every plan the code returned. The oracle is itself model-checked to be satisfiable on the enumerated space.",
+         "clauses on every plan the code returned. The oracle is itself model-checked to be satisfiable on the enumerated space. "
+         "At the group level the real consumerGroup leader (all three strategies, 1-3 members, two generations) computes plans "
+         "against a simulated coordinator whose metadata lists one leaderless partition; every SyncGroup plan must cover every "
+         "listed partition exactly once, with subscribed known members only.",
     note="bounded enumeration; inputs respect what consumerGroup.balance supplies (topics = existing subscribed topics, "
          "sorted partition lists, non-empty topic map); harness + TLC trusted",
     design_ref="6/C08",
